@@ -348,3 +348,8 @@ def run(ctx):
 
     # a repeat snapshot finds the chunks it needs: nothing but delete / clean removes a stored chunk
     deletion_confined_to_gc_commands(ctx, 'C07.R7')
+    # chunking and naming parameters are those of THIS repository: nothing but content-addressed snapshot objects goes
+    # through the per-user cache (a cached `config` would be another repository's)
+    from .c18 import r3b_cache_holds_snapshot_objects_only
+
+    r3b_cache_holds_snapshot_objects_only(Relabel(ctx, 'C07.R2'))
